@@ -573,6 +573,7 @@ func (r *Runner) InsertRace(k int) {
 		batches[i] = b
 	}
 	oks := make([]int, k)
+	errs := make([]string, k)
 	var wg sync.WaitGroup
 	start := make(chan struct{})
 	for i := 0; i < k; i++ {
@@ -581,8 +582,10 @@ func (r *Runner) InsertRace(k int) {
 		go func(i int) {
 			defer wg.Done()
 			<-start
-			if r.Shard.InsertPoints(real) == nil {
+			if err := r.Shard.InsertPoints(real); err == nil {
 				oks[i] = 1
+			} else {
+				errs[i] = errStr(err)
 			}
 		}(i)
 	}
@@ -599,7 +602,7 @@ func (r *Runner) InsertRace(k int) {
 		}
 	}
 	r.Batches++
-	r.TW.Emit("InsertRace", M{"batches": abs, "oks": oks, "P": r.proj()})
+	r.TW.Emit("InsertRace", M{"batches": abs, "oks": oks, "errs": errs, "P": r.proj()})
 }
 
 // WriteRace issues k write requests of random kinds at the same time; their id
